@@ -3,7 +3,8 @@ From stdpp Require Import gmap list.
 From Coq Require Import ZArith String.
 From OL Require Import theories.Store theories.Abci theories.Restart theories.Caches
   proofs.StoreProofs proofs.AbciProofs proofs.RestartProofs gen.Facts_Caches
-  theories.Globals proofs.GlobalsProofs gen.Facts_Globals.
+  theories.Globals proofs.GlobalsProofs gen.Facts_Globals
+  theories.Options proofs.OptionsProofs gen.Facts_Options.
 Local Open Scope Z_scope.
 
 (* after a crash at ANY call boundary of ANY block (arbitrary hook, handler and fee programs),
@@ -136,3 +137,26 @@ Print Assumptions C08_fact_globals.
 Print Assumptions C08_fact_local_reads.
 Print Assumptions C08_fact_state_then_local_error.
 Print Assumptions C08_fact_closures.
+
+(* ---------- the in-memory copies of governance options across a restart (theories/Options.v) ----------
+   A restarted process rebuilds each copy from the committed record: whatever the old process held, the
+   consensus reads after the restart return the option as persisted — for every continuation with block
+   starts, finalisations, commits, further restarts and mempool checks under the writer discipline. *)
+Theorem C08_option_copy_after_restart : forall post s, disciplined post = true ->
+  snd (orun s (OStart :: post)) = snd (srun s (OStart :: post)).
+Proof. exact option_restart_coherent. Qed.
+Print Assumptions C08_option_copy_after_restart.
+
+(* tie to the source (regenerated on every run): every copy that has a reader on a consensus path is set
+   by App.Prepare (the start-up path of an initialised chain); the callers of every accessor are audited —
+   a handler that starts reading a copy Prepare does not rebuild (the ONS options of the domain store) is
+   not in the table — and the writer discipline of C07 holds *)
+Theorem C08_fact_option_copies_restored :
+  not_restored option_accessor_calls = [] /\ unaudited_calls option_accessor_calls = [] /\
+  foreign_uses option_field_uses = [] /\ early_writes option_accessor_calls = [] /\ unaudited_modes update_mode_calls = [].
+Proof. vm_compute. repeat split; reflexivity. Qed.
+
+Example C08_fact_option_copies_nonvacuous :
+  not_restored [("data/fees.Store.SetupOpt"%string, "app.App.blockBeginner"%string, false)] <> [] /\
+  unaudited_calls [("data/ons.DomainStore.GetOptions"%string, "action/ons.runRenew"%string, false)] <> [].
+Proof. vm_compute. split; discriminate. Qed.
